@@ -752,6 +752,9 @@ def _env_events(chk, kinds, n=6):
     if "fifo" in kinds:
         for k, (o, nwords) in enumerate([(0x3000, 1), (0x3000, 5000), (0x0000, 3), (0xFDFF, 1), (0x3000, 7)]):
             data = bytes([o >> 8, o & 0xFF]) + bytes([0xF0, 0x25]) * nwords
+            if k == 4:
+                # a program that prints something, so that a misaligned load shows: LEA R0,#2; PUTS; HALT; "ok"
+                data = bytes([0x30, 0x00, 0xE0, 0x02, 0xF0, 0x22, 0xF0, 0x25, 0x00, 0x6F, 0x00, 0x6B, 0x00, 0x00])
             reg = os.path.join(d, "reg%d.lc3" % k)
             open(reg, "wb").write(data)
             a = vlib.run_lace(["run", "--minimal", reg])
@@ -1289,13 +1292,18 @@ def _compile_syscalls(log, marker, dest):
     return opens, evs
 
 
-def _c08_pipegone(c, dest, base):
+def _c08_pipegone(c, dest, base, dk="absent-pipegone"):
     """stdout is a pipe; its reader reads the first message and leaves BEFORE the source can be assembled (the source comes through a FIFO
     that is only fed afterwards): every later message hits a broken pipe."""
     import threading
     fifo = base + ".src.asm"
     os.mkfifo(fifo)
-    r, w = os.pipe()
+    if dk == "absent-ptygone":
+        # the same with a terminal: once the master side is closed every write to the slave fails with EIO
+        import pty as _pty
+        r, w = _pty.openpty()
+    else:
+        r, w = os.pipe()
     p = _sp.Popen([vlib.LACE_BIN, "compile"] + _flag(c["stack"]) + [fifo, dest], stdout=w, stderr=_sp.PIPE, cwd=WORK)
     os.close(w)
     first = b""
@@ -1324,7 +1332,7 @@ def _c08_pipegone(c, dest, base):
     t.join(5)
     os.remove(fifo)
     after = list(open(dest, "rb").read()) if os.path.exists(dest) else [-1]
-    return [{"ev": "atomic", "tag": c["tag"] + ":absent-pipegone", "ast": c["ast"], "stack": c["stack"], "dest": "absent-pipegone", "code": code,
+    return [{"ev": "atomic", "tag": c["tag"] + ":" + dk, "ast": c["ast"], "stack": c["stack"], "dest": dk, "code": code,
              "before": [-1], "after": after, "opens": -1, "litter": 0, "src": c["src"]}]
 
 
@@ -1363,7 +1371,7 @@ def check_C08(replay=None):
     jobs += [(c, dk) for i, c in enumerate(man) for dk in ("absent-msgfail", "file-msgfail") if thorough or i % 3 != 1]
     # the destination is a symbolic link to a regular file (writable / not writable); names mixing 1-, 2-, 3- and 4-byte characters;
     # a stdout pipe whose reader has left once the first message was printed
-    jobs += [(c, dk) for i, c in enumerate(man) for dk in ("symlink", "symlink-fsize", "mixedutf8", "absent-pipegone") if thorough or i % 4 == 0]
+    jobs += [(c, dk) for i, c in enumerate(man) for dk in ("symlink", "symlink-fsize", "mixedutf8", "absent-pipegone", "absent-ptygone") if thorough or i % 4 == 0]
     # the destination has a second name (hard link): same two outcomes; the other name keeps seeing the old bytes or sees the new ones, never a mixture
     jobs += [(c, dk) for i, c in enumerate(man) for dk in ("hardlink", "hardlink-fsize") if thorough or i % 4 == 1]
 
@@ -1410,7 +1418,7 @@ def check_C08(replay=None):
             # 2-, 3-, 4- and 1-byte characters in turn, then j ASCII characters: over the cases every byte alignment of the name's tail occurs
             j = (int(_re.findall(r"_(\d+)\.asm$", c["path"])[0]) // 4) % 10
             dest = base + "\u00e9\u2713\U0001F600a" * 14 + "x" * j + ".lc3"
-        elif dk in ("absent-outfull", "absent-fsize", "absent-msgfail", "absent-pipegone"):
+        elif dk in ("absent-outfull", "absent-fsize", "absent-msgfail", "absent-pipegone", "absent-ptygone"):
             dest = base + ".lc3"
         elif dk in ("file-outfull", "file-fsize", "file-msgfail"):
             dest = base + ".lc3"
@@ -1422,8 +1430,8 @@ def check_C08(replay=None):
         out_path = None
         if dk.endswith("-fsize"):
             limit = 8 if dk == "hardlink-fsize" else 0       # (8: the write fails part-way instead of at its first byte)
-        if dk == "absent-pipegone":
-            return _c08_pipegone(c, dest, base)
+        if dk in ("absent-pipegone", "absent-ptygone"):
+            return _c08_pipegone(c, dest, base, dk)
         if dk.endswith("-msgfail"):
             # stdout is a regular file and the size limit lets the first message and the object through, but not the messages
             # printed after the object has been written
@@ -1762,7 +1770,7 @@ def check_C19(replay=None):
 def check_C17(replay=None):
     def jobs(chk, thorough):
         n = 400 * SCALE if thorough else 60
-        return [("view%d" % k, ["--mode", "view", "--n", n // 4, "--seed", chk.seed * 23 + k]) for k in range(4)]
+        return [("view%d" % k, ["--mode", "view", "--n", n // 4, "--seed", chk.seed * 23 + k]) for k in range(4)] + [("scn", ["--mode", "scenario", "--only", "biggap", "--seed", chk.seed])]
     return _run_family("C17",
                        "session = arbitrary multi-label program (all statement forms, operand-less after operand-ful, .fill/.blkw/.stringz, colon labels, commas, comments with multi-byte characters, "
                        "non-default origins, .break/.orig interleaved, several statements per line) rendered in seeded layouts, loaded under the real debugger and never executed; script = `assembly <a>` for every address "
